@@ -334,3 +334,149 @@ func diffKeyMaps(want, got map[gmsl.PublicKeyLookupRequest]gmsl.PublicKeyLookupR
 	sort.Strings(out)
 	return strings.Join(out, "; ")
 }
+
+// ---------------------------------------------------------------- pool boundary sizes
+//
+// c19keysizes: one FetchKeys call over N distinct remote servers (N around the worker limit of 64) with a
+// scripted KeyClient that answers at once (it never blocks and never sleeps).  The outcome of every server is
+// a function of its index and the pattern number.  The result must be the union of the per-server successes.
+// A call that has not returned after sizeBound although every KeyClient call that was started has returned
+// cannot make progress any more: it is reported as a deadlock.  (The whole operation takes milliseconds;
+// sizeBound is four orders of magnitude above that.)
+
+const sizeBound = 20 * time.Second
+
+type sizesRec struct {
+	N       int `json:"n"`
+	Pattern int `json:"pattern"`
+}
+
+// sizeOutcome returns the scripted (direct, notary) outcomes of server number i.
+func sizeOutcome(i, pattern int) (string, string) {
+	switch (i*7 + pattern*3) % 11 {
+	case 0, 5:
+		return "err", "err"
+	case 1:
+		return "bad", "ok"
+	case 2:
+		return "err", "missing"
+	case 3:
+		return "err", "ok"
+	case 4:
+		return "bad", "bad"
+	default:
+		return "ok", ""
+	}
+}
+
+type countingKeyClient struct {
+	ids      map[spec.ServerName]*serverIdentity
+	idx      map[spec.ServerName]int
+	pattern  int
+	mu       sync.Mutex
+	entered  int
+	returned int
+}
+
+func (c *countingKeyClient) enter() {
+	c.mu.Lock()
+	c.entered++
+	c.mu.Unlock()
+}
+
+func (c *countingKeyClient) leave() {
+	c.mu.Lock()
+	c.returned++
+	c.mu.Unlock()
+}
+
+func (c *countingKeyClient) GetServerKeys(_ context.Context, s spec.ServerName) (gmsl.ServerKeys, error) {
+	c.enter()
+	defer c.leave()
+	d, _ := sizeOutcome(c.idx[s], c.pattern)
+	switch d {
+	case "ok":
+		return c.ids[s].resp, nil
+	case "bad":
+		return c.ids[s].bad, nil
+	}
+	return gmsl.ServerKeys{}, errors.New("c19: scripted GetServerKeys failure")
+}
+
+func (c *countingKeyClient) LookupServerKeys(_ context.Context, s spec.ServerName, _ map[gmsl.PublicKeyLookupRequest]spec.Timestamp) ([]gmsl.ServerKeys, error) {
+	c.enter()
+	defer c.leave()
+	_, n := sizeOutcome(c.idx[s], c.pattern)
+	switch n {
+	case "ok":
+		return []gmsl.ServerKeys{c.ids[s].resp}, nil
+	case "bad":
+		return []gmsl.ServerKeys{c.ids[s].bad}, nil
+	case "missing":
+		return []gmsl.ServerKeys{}, nil
+	}
+	return nil, errors.New("c19: scripted LookupServerKeys failure")
+}
+
+func sizesReplay(raw json.RawMessage) hx.Result {
+	var rec sizesRec
+	if err := json.Unmarshal(raw, &rec); err != nil {
+		panic(err)
+	}
+	keyIDs := []string{"k1", "k2"}
+	client := &countingKeyClient{ids: map[spec.ServerName]*serverIdentity{}, idx: map[spec.ServerName]int{}, pattern: rec.Pattern}
+	requests := map[gmsl.PublicKeyLookupRequest]spec.Timestamp{}
+	want := map[gmsl.PublicKeyLookupRequest]gmsl.PublicKeyLookupResult{}
+	nSucc := 0
+	for i := 0; i < rec.N; i++ {
+		id := identity(fmt.Sprintf("n%03d", i), keyIDs)
+		client.ids[id.name], client.idx[id.name] = id, i
+		for kid := range id.keys {
+			requests[gmsl.PublicKeyLookupRequest{ServerName: id.name, KeyID: kid}] = 1
+		}
+		if d, n := sizeOutcome(i, rec.Pattern); d == "ok" || n == "ok" {
+			nSucc++
+			for k, v := range id.expectedKeys() {
+				want[k] = v
+			}
+		}
+	}
+	fetcher := &gmsl.DirectKeyFetcher{Client: client, IsLocalServerName: func(spec.ServerName) bool { return false }}
+	type fetchResult struct {
+		res map[gmsl.PublicKeyLookupRequest]gmsl.PublicKeyLookupResult
+		err error
+	}
+	done := make(chan fetchResult, 1)
+	begin := time.Now()
+	go func() {
+		res, err := fetcher.FetchKeys(context.Background(), requests)
+		done <- fetchResult{res, err}
+	}()
+	class := "servers<=64"
+	if rec.N > 64 {
+		class = "servers>64"
+	}
+	var fr fetchResult
+	select {
+	case fr = <-done:
+	case <-time.After(sizeBound):
+		client.mu.Lock()
+		entered, returned := client.entered, client.returned
+		client.mu.Unlock()
+		if entered == returned {
+			return keysFail("deadlock/"+class, "FetchKeys over %d distinct servers has not returned after %v although all %d KeyClient calls it started have returned (instant scripted client): the worker pool is deadlocked", rec.N, sizeBound, entered)
+		}
+		return keysFail("no-progress/"+class, "FetchKeys over %d distinct servers has not returned after %v; %d of %d KeyClient calls returned", rec.N, sizeBound, returned, entered)
+	}
+	took := time.Since(begin)
+	if fr.err != nil {
+		return keysFail("result", "FetchKeys over %d servers returned error %v", rec.N, fr.err)
+	}
+	if d := diffKeyMaps(want, fr.res); d != "" {
+		if len(d) > 600 {
+			d = d[:600] + " ..."
+		}
+		return keysFail("result/"+class, "FetchKeys over %d distinct servers (%d succeed): result differs from the union of the per-server results: %s", rec.N, nSucc, d)
+	}
+	return hx.Result{OK: true, NT: fmt.Sprintf("sizes n=%d succ=%d", rec.N, nSucc), Extra: map[string]interface{}{"ms": took.Milliseconds()}}
+}
